@@ -76,7 +76,7 @@ Named(a, j) == \E m1 \in 1..NM : a[m1] = j                       \* some machine
 Starts(s, a, j, k) == Named(a, j) /\ HasNext(s, j) /\ k = NextOp(s, j)
 (* Total function; the documentation only prescribes the successor of a legal action.  For an entry that
    names a finished job nothing can start; the machine is then shown as (job, 0). *)
-Next(s, a) ==
+Succ(s, a) ==
   [ ops_machine_ids |-> s.ops_machine_ids,
     ops_durations   |-> s.ops_durations,
     ops_mask        |-> [j1 \in 1..NJ |-> [k \in OpIdx |-> s.ops_mask[j1][k] /\ ~Starts(s, a, j1 - 1, k)]],
@@ -101,8 +101,8 @@ A(s) == [ ops_machine_ids |-> s.ops_machine_ids, ops_durations |-> s.ops_duratio
 AllIdle(t)      == \A m \in Machines : MJob(t, m) = NoOp /\ MRem(t, m) = 0
 AllScheduled(t) == \A j \in Jobs : ~HasNext(t, j)
 Finished(t)     == AllScheduled(t) /\ \A m \in Machines : MRem(t, m) = 0
-Done(s, a)   == ~Legal(s, a) \/ (LET t == Next(s, a) IN AllIdle(t) \/ Finished(t))
-Reward(s, a) == IF ~Legal(s, a) \/ AllIdle(Next(s, a)) THEN -Penalty ELSE -1
+Done(s, a)   == ~Legal(s, a) \/ (LET t == Succ(s, a) IN AllIdle(t) \/ Finished(t))
+Reward(s, a) == IF ~Legal(s, a) \/ AllIdle(Succ(s, a)) THEN -Penalty ELSE -1
 
 (* ---------- observation: copies of the state fields + the mask given by the rules ---------- *)
 Obs(s) == [ ops_machine_ids |-> s.ops_machine_ids, ops_durations |-> s.ops_durations, ops_mask |-> s.ops_mask,
